@@ -7,13 +7,15 @@ DEPS = GC.DEPS
 MODEL_TARGETS = ['Corr/C16c.vo']
 IMPORTS = ("From GfaV Require Import Base.Py Model.Codec Model.Graph Model.Topology Proofs.GraphP Corr.Graphc Corr.C16c.")
 ASSUMPTIONS = GC.ASSUMPTIONS
-LEVEL_TEXT = ("Theorems in coq/Props/C16.v over Model/Topology.v (components computed on the reference semantics of the graph): the "
-              "component of a segment is exactly the set of segments joined to it by a chain of dovetail adjacencies; components "
-              "are equivalence classes; connected_components covers every segment and its components are pairwise disjoint — for "
-              "graphs of any size. Tie: after every generated history (additions, removals, renames) the components, "
-              "segment_connected_component of a sampled segment and the four counters of gfapy are compared with the model inside "
-              "Coq, together with the identity counter = number of records of that class. PARTIAL: the counter identities are "
-              "checked on every generated state, not proved. Oracle: union-find over the text of the document, record counts.")
+LEVEL_TEXT = ("Theorems in coq/Props/C16.v over Model/Topology.v (components and counters computed on the reference semantics of the "
+              "graph): the component of a segment is exactly the set of segments joined to it by a chain of dovetail adjacencies; "
+              "components are equivalence classes; connected_components covers every segment and its components are pairwise "
+              "disjoint; in every state with unique identifiers, resolved mentions and oriented links — in particular every state "
+              "reachable inside the guards of C02 — n_dovetails, n_containments and n_internals are the numbers of records of "
+              "their class (each record is filed exactly twice; proved through the regenerated collection kernels) — for graphs "
+              "of any size. Tie: after every generated history the components, segment_connected_component of a sampled segment "
+              "and the four counters of gfapy are compared with the model inside Coq. n_dead_ends is compared, not characterised. "
+              "Oracle: union-find over the text of the document, record counts.")
 RULE = ("GFA1 and GFA2 graphs: isolated segments, trees, cycles, self-links, hairpins, parallel links, containment-only and "
         "internal-only relations; observed after the document is built and again after 1-4 removals/renames. Non-trivial: >= 2 "
         "components or a cycle/self-link/parallel edge.")
